@@ -222,9 +222,11 @@ def r5(ctx):
 
 def run(ctx):
     ctx.guard("R02.1", "operators", r1, ctx)
+    from .c08 import padding_applied
+    ctx.guard("R02.1", "padding", padding_applied, ctx, "R02.1")
     ctx.guard("R02.4", "dense", r4, ctx)
     ctx.guard("R02.5", "composition", r5, ctx)
-    ctx.floor("R02.1", 11, "")
+    ctx.floor("R02.1", 12, "")
     ctx.floor("R02.4", 5, "")
     ctx.floor("R02.5", 10, "")
     ctx.guard("R02.2", "axis-typing", spatial.axis_typing, ctx, "R02.2", FWD_FNS, 120)
